@@ -13,6 +13,7 @@ TABLE = {
     "C10": ("sim.scenarios.persist", "C10", "exploration", 3000, 300000),
     "C12": ("sim.scenarios.state", "C12", "exploration", 4000, 400000),
     "C15": ("sim.scenarios.state", "C15", "exploration", 4000, 400000),
+    "C13": ("sim.scenarios.isolation", "SCENARIO", "exploration", 3000, 300000),
     "C16": ("sim.scenarios.naming", "SCENARIO", "exploration", 4000, 400000),
     "C17": ("sim.scenarios.containers", "SCENARIO", "exploration", 8000, 800000),
     "C19": ("sim.scenarios.savecrash", "SCENARIO", "fault_enumeration", 1500, 100000),
